@@ -52,7 +52,7 @@ ALGS = R.ALGS
 DIGITS = (6, 7, 8, 9, 10)
 KEYLENS_Q = (1, 2, 9, 10, 16, 19, 20, 21, 32, 63, 64)
 PERIODS_Q = (1, 2, 3, 29, 30, 31, 59, 60, 3600)
-BASES = (("k0", 0), ("k1", 1), ("k2", 2), ("2^31", 2**31), ("2^32", 2**32), ("2^40", 2**40))
+BASES = (("k0", 0), ("k1", 1), ("k2", 2), ("2^31", 2**31), ("2^32", 2**32), ("2^35", 2**35), ("2^37", 2**37), ("2^40", 2**40))  # 2^35 = year 3058, 2^37 = year 6325: date-times whose seconds need more than 34 bits (float microseconds run out)
 FORMS = ("int", "float", "float.75", "naive", "naive_us", "aware_utc", "aware+0530", "aware-0800", "clock")
 DT_MAX = 253402300799  # 9999-12-31T23:59:59Z
 EPOCH = dt.datetime(1970, 1, 1)
